@@ -34,7 +34,7 @@ def one(mut):
             return res
         env = dict(os.environ, VERIF_NO_EVIDENCE="1", VERIF_REPO=tmp)
         for prop in PROPS:
-            q = subprocess.run([os.path.join(VERIF, "check"), prop, "--root", tmp], cwd=VERIF, stdout=subprocess.PIPE, stderr=subprocess.STDOUT, text=True, env=env)
+            q = subprocess.run([os.path.join(VERIF, "check"), prop, "--root", tmp], cwd=VERIF, stdout=subprocess.PIPE, stderr=subprocess.STDOUT, text=True, env=env, timeout=600)
             if q.returncode == 1:
                 res["caught_by"].append(prop)
                 rules = sorted({l.strip().split(" ", 1)[0][5:] for l in q.stdout.splitlines() if l.strip().startswith("rule=")})
